@@ -160,8 +160,78 @@ def family(quick):
             add(f"vsm*{n}{comp}", [("v", t), ("x", {"k": other})], vt(n), [A.ret(B("*", V("v"), V("x")))])
             add(f"svm*{n}{comp}", [("v", t), ("x", {"k": other})], vt(n), [A.ret(B("*", V("x"), V("v")))])
             add(f"vsmp/{n}{comp}", [("v", t), ("x", {"k": other})], vt(n), [A.ret(B("/", V("v"), B("-", V("x"), V("x") if False else (L(0) if other == "int" else A.lit_f(0, 0)))))])
+            if comp == "int":
+                shifted = B("-", V("v"), A.cons(t, [L(10)] * n))           # negative components
+                add(f"vsneg/{n}", [("v", t)], t, [A.ret(B("/", shifted, L(2)))])
+                add(f"vsnegm/{n}", [("v", t)], t, [A.ret(B("/", shifted, A.lit_i(-2)))])
             add(f"vcopy{n}{comp}", [("v", t), ("x", {"k": comp})], t, [A.decl("u", t, V("v")), A.estmt(A.asg(A.idx(V("u"), L(1)), V("x"))), A.ret(B("+", V("v"), B("*", V("u"), L(100))))])
         add(f"vmix{n}", [("v", vt(n)), ("w", vt(n, "int"))], vt(n), [A.ret(B("+", V("v"), V("w")))])
+    return out
+
+
+def meta_family():
+    """'component-wise as written': an operation on a whole vector / matrix and the same operation written out component by component
+    are the same computation, so the VM must return identical values for them - also where the result is not exactly representable
+    (divisors 3, 7, 10; negative components).  -> [(name, source A, source B, [inputs])]"""
+    out = []
+    comps = "xyzw"
+    for n in (2, 3, 4):
+        fv = f"float{n}"
+        iv = f"int{n}"
+        fvals = [[5.0, 1.0, -7.0, 0.3][:n], [1e10, -2.5, 1.0 / 3.0, 9.0][:n]]
+        ivals = [[-7, 7, -1, 9][:n], [5, -5, 0, -8][:n]]
+        for op in ("/", "*"):
+            for s_t, v_t, vals, svals in (("float", fv, fvals, [3.0, 7.0, 10.0, -3.0]), ("int", iv, ivals, [2, 3, -2, 7])):
+                a = f"export function f({v_t} v, {s_t} s) -> {v_t}\n{{\n  return v {op} s;\n}}\n"
+                b = f"export function f({v_t} v, {s_t} s) -> {v_t}\n{{\n  return {v_t}(" + ", ".join(f"v.{comps[i]} {op} s" for i in range(n)) + ");\n}\n"
+                out.append((f"v{op}s:{v_t}", a, b, [{"v": v, "s": sv} for v in vals for sv in svals]))
+            a = f"export function f({fv} v, float s) -> {fv}\n{{\n  return s * v;\n}}\n"
+            b = f"export function f({fv} v, float s) -> {fv}\n{{\n  return {fv}(" + ", ".join(f"s * v.{comps[i]}" for i in range(n)) + ");\n}\n"
+            out.append((f"s*v:{fv}", a, b, [{"v": v, "s": sv} for v in fvals for sv in (3.0, 0.1)]))
+        for op in ("+", "-"):
+            a = f"export function f({fv} v, {fv} w) -> {fv}\n{{\n  return v {op} w;\n}}\n"
+            b = f"export function f({fv} v, {fv} w) -> {fv}\n{{\n  return {fv}(" + ", ".join(f"v.{comps[i]} {op} w.{comps[i]}" for i in range(n)) + ");\n}\n"
+            out.append((f"v{op}w:{fv}", a, b, [{"v": fvals[0], "w": fvals[1]}, {"v": [0.1] * n, "w": [0.2] * n}]))
+    for n in (3, 4):
+        mt, fv = f"float{n}x{n}", f"float{n}"
+        m1 = [[(i * n + j) * 1.5 - 4.0 + (0.1 if (i + j) % 3 == 0 else 0.0) for j in range(n)] for i in range(n)]
+        m2 = [[1.0 / (1 + i + j) for j in range(n)] for i in range(n)]
+        for op in ("/", "*"):
+            a = f"export function f({mt} m, float s) -> {mt}\n{{\n  return m {op} s;\n}}\n"
+            b = f"export function f({mt} m, float s) -> {mt}\n{{\n  return {mt}(" + ", ".join(f"m[{i}] {op} s" for i in range(n)) + ");\n}\n"
+            c = f"export function f({mt} m, float s) -> {mt}\n{{\n  return {mt}(" + ", ".join(f"{fv}(" + ", ".join(f"m[{i}][{j}] {op} s" for j in range(n)) + ")" for i in range(n)) + ");\n}\n"
+            ins = [{"m": m, "s": sv} for m in (m1, m2) for sv in (3.0, 7.0, 10.0, 2.0)]
+            out.append((f"m{op}s-rows:{mt}", a, b, ins))
+            out.append((f"m{op}s-elements:{mt}", a, c, ins))
+        # (matrix x vector and matrix products involve sums, whose association no statement fixes: not compared bit for bit)
+    return out
+
+
+def meta_work(items):
+    import copy
+    out = []
+    for name, a, b, inputs in items:
+        for opt in (False, True):
+            vms = []
+            for src in (a, b):
+                st, r = common.compile_source(src, {"optimize": opt})
+                vms.append(common.link_vm(r) if st == "ok" else None)
+            if vms[0] is None or vms[1] is None:
+                out.append((None, "meta-not-compiled", None))          # acceptance is judged by the family above / by C09
+                continue
+            for ins in inputs:
+                res = []
+                for vm in vms:
+                    try:
+                        with common.quiet():
+                            res.append(repr(vm.Invoke("f", **copy.deepcopy(ins))))
+                    except BaseException as e:  # noqa
+                        res.append("raise:" + type(e).__name__)
+                if res[0] != res[1] and not (res[0].startswith("raise") and res[1].startswith("raise")):
+                    out.append((f"componentwise-differs:{name.split(':')[0]}", f"{name} [{'O1' if opt else 'O0'}] with {ins}: the operation on the whole value gives {res[0]}, written out component by component {res[1]}",
+                                {"whole": a, "written_out": b, "inputs": ins, "optimize": opt}))
+                    break
+                out.append((None, "meta-agree", None))
     return out
 
 
@@ -239,6 +309,15 @@ def run(ctx, args):
     items = fam + gen
     with mp.Pool(16) as pool:
         recs = [r for part in pool.map(work, [items[i:i + 40] for i in range(0, len(items), 40)]) for r in part]
+    counts = {}
+    with mp.Pool(16) as pool:
+        mf = meta_family()
+        for part in pool.map(meta_work, [mf[i:i + 4] for i in range(0, len(mf), 4)]):
+            for key, what, case in part:
+                if key is None:
+                    counts[what] = counts.get(what, 0) + 1
+                else:
+                    ctx.violation(key, what, case)
     progs, cases = [], []
     for r in recs:
         progs.append(r["prog"])
@@ -247,7 +326,6 @@ def run(ctx, args):
     sem = {}
     for lo in range(0, len(cases), 3000):
         sem.update(semrun.run_sem(ctx, progs, cases[lo:lo + 3000]))
-    counts = {}
     agree = 0
     nontriv = set()
     samples = []
@@ -286,6 +364,7 @@ def run(ctx, args):
         rule=f"{len(fam)} family programs (all swizzle read masks of length 1-4 on sizes 2-4, all non-repeating write masks with copy tests, all constructor partitions, "
              f"matrix rows/elements/nested writes/copies for 3x3 and 4x4, component-wise and scalar operations, matrix sum/product, matrix x vector) and {n} seeded programs, "
              "2 inputs with pairwise distinct components each, both optimisation levels; every case is one NslSem behaviour in TLC whose prescribed value the VM must return. "
+             f"{len(meta_family())} pairs (an operation on the whole vector / matrix, the same written out component by component) must give identical VM values also for inexact quotients and negative components. "
              "distinct_nontrivial = programs with at least one agreeing judged run.",
         samples=samples or [{"note": "see family()"}], exhaustive=True, traces_validated=agree,
         assumptions=["programs the language itself leaves undefined (NslSem status ill) may be rejected", "5 and 5.0 are the same value"],
